@@ -1409,3 +1409,71 @@ def respath_api(rng, name, npat=36):
     api.options = ["transport=grpc", "autogen-snippets=false"]
     api.info.update(pkg=pkg, version=ver, ns=["vp"], name=name, host=f"{name}.googleapis.com")
     return api
+
+
+AUTOPOP_VIOLATIONS = ["unknown_method", "server_streaming", "client_streaming", "nested_field", "required_field", "int_field",
+                      "bytes_field", "unannotated", "other_format", "duplicate_selector", "unknown_field", "message_field"]
+
+
+def autopop_api(rng, name, violation=None):
+    """AIP-4235 shapes (C18)."""
+    from google.api import field_info_pb2
+    api = Api(name)
+    ver = "v1"
+    pkg = f"vp.{name}.{ver}"
+    P = "." + pkg
+    f = File(f"vp/{name}/{ver}/{name}.proto", pkg, deps=list(STD_DEPS))
+    api.add(f)
+    sub = f.message("Sub")
+    sub.field("request_id", "string", uuid4=True)
+    q = f.message("Req")
+    q.field("name", "string")
+    q.field("request_id", "string", uuid4=True)
+    q.field("opt_request_id", "string", optional=True, uuid4=True)
+    q.field("payload", "string")
+    q.field("count", "int32")
+    q.field("sub", P + ".Sub")
+    q.field("required_id", "string", uuid4=True, required=True)
+    q.field("int_id", "int32", uuid4=True)
+    q.field("bytes_id", "bytes", uuid4=True)
+    q.field("plain_id", "string")
+    fo = q.field("ipv4_id", "string")
+    fo.options.Extensions[field_info_pb2.field_info].format = field_info_pb2.FieldInfo.IPV4
+    q.field("sub_id", P + ".Sub", uuid4=True)
+    q.field("third_id", "string", uuid4=True)
+    r = f.message("Reply")
+    r.field("ok", "bool")
+    s = f.service("Ids", host=f"{name}.googleapis.com")
+    s.rpc("Create", P + ".Req", P + ".Reply", http={"post": "/v1/{name=things/*}:create"}, body="*")
+    s.rpc("Fetch", P + ".Req", P + ".Reply", http={"get": "/v1/{name=things/*}"})
+    s.rpc("Patch", P + ".Req", P + ".Reply", http={"patch": "/v1/{name=things/*}"}, body="sub", sigs=["name,payload"])
+    s.rpc("Untouched", P + ".Req", P + ".Reply", http={"post": "/v1/{name=things/*}:untouched"}, body="*")
+    s.rpc("Tail", P + ".Req", P + ".Reply", ss=True, http={"get": "/v1/{name=things/*}:tail"})
+    s.rpc("Upload", P + ".Req", P + ".Reply", cs=True)
+    S = f"{pkg}.Ids"
+    settings = [
+        {"selector": f"{S}.Create", "auto_populated_fields": ["request_id", "opt_request_id"]},
+        {"selector": f"{S}.Fetch", "auto_populated_fields": rng.choice([["request_id"], ["opt_request_id"], ["request_id", "third_id"]])},
+        {"selector": f"{S}.Patch", "auto_populated_fields": ["opt_request_id", "request_id"]},
+    ]
+    bad = {
+        "unknown_method": {"selector": f"{S}.Nope", "auto_populated_fields": ["request_id"]},
+        "server_streaming": {"selector": f"{S}.Tail", "auto_populated_fields": ["request_id"]},
+        "client_streaming": {"selector": f"{S}.Upload", "auto_populated_fields": ["request_id"]},
+        "nested_field": {"selector": f"{S}.Untouched", "auto_populated_fields": ["sub.request_id"]},
+        "required_field": {"selector": f"{S}.Untouched", "auto_populated_fields": ["required_id"]},
+        "int_field": {"selector": f"{S}.Untouched", "auto_populated_fields": ["int_id"]},
+        "bytes_field": {"selector": f"{S}.Untouched", "auto_populated_fields": ["bytes_id"]},
+        "unannotated": {"selector": f"{S}.Untouched", "auto_populated_fields": ["plain_id"]},
+        "other_format": {"selector": f"{S}.Untouched", "auto_populated_fields": ["ipv4_id"]},
+        "duplicate_selector": {"selector": f"{S}.Create", "auto_populated_fields": ["third_id"]},
+        "unknown_field": {"selector": f"{S}.Untouched", "auto_populated_fields": ["no_such_field"]},
+        "message_field": {"selector": f"{S}.Untouched", "auto_populated_fields": ["sub_id"]},
+    }
+    if violation:
+        settings.insert(rng.randint(0, len(settings)), bad[violation])
+    api.info["method_settings"] = settings
+    api.aux["service-yaml"] = ("svc.yaml", service_yaml(api, publishing={"method_settings": settings}))
+    api.options = ["transport=grpc+rest", "autogen-snippets=false"]
+    api.info.update(pkg=pkg, version=ver, ns=["vp"], name=name, host=f"{name}.googleapis.com")
+    return api
